@@ -212,13 +212,13 @@ def evaluate(vh, mode, args, trace_path, what, scripts=None):
     by, order = read_trace(trace_path)
     # a forced replay that left its script or did not finish (a wait timed out: machine stalled, or the code really
     # deviates) is repeated once in isolation with a longer timeout before it counts
-    bad = [o["sid"] for o in summ["outcomes"] if o["status"] != "ok"]
-    if mode == "replay" and scripts and bad and len(bad) <= 2000:
+    bad = [o["sid"] for o in summ["outcomes"] if o["status"] != "ok" and o.get("timeout")]
+    if mode == "replay" and scripts and bad and len(bad) <= 300:
         rp = trace_path + ".retry.scripts"
         with open(rp, "w") as fh:
             for sid in bad:
                 fh.write(json.dumps({"sid": sid, "steps": scripts[sid]}) + "\n")
-        s2 = run_vh(vh, ["replay", "-scripts", rp, "-workers", "2", "-wait-ms", "60000", "-out", trace_path + ".retry"], what + " (retry)", timeout=3000)
+        s2 = run_vh(vh, ["replay", "-scripts", rp, "-workers", "4", "-wait-ms", "40000", "-out", trace_path + ".retry"], what + " (retry)", timeout=3000)
         by2, order2 = read_trace(trace_path + ".retry")
         again = {o["sid"]: o for o in s2["outcomes"]}
         vlib.log("[C13] %s: %d execution(s) repeated in isolation, %d fine now" % (what, len(bad), sum(1 for o in again.values() if o["status"] == "ok")))
@@ -567,7 +567,7 @@ def run(pid, tier, seed, replay):
     }
     assumptions = [
         "one order monitor per service instance; monitors of different orders share no state but the cluster and clients",
-        "a bid found at catch-up counts as placed once the monitor has consumed the answer of the existing-bid query",
+        "a bid found OPEN at catch-up needs a close-bid once the monitor has consumed the answer of the existing-bid query; a bid found in any state counts for the at-most-one-bid clause; a bid found active means the lease is already ours",
         "'won' is the chain fact: a lease for this order and this provider was published before handling ended",
         "a broadcast / reservation that returns an error placed nothing",
     ]
